@@ -71,6 +71,13 @@ theorem gen_mean_diagonal : Gen.C16.meanDiagonalLoops = ["for (cf_pose, sample) 
     Gen.C16.intersectionDistanceFlow = ["intersection1 = cls.calc_intersection_point(vector1, bs_pose, cf_pose)",
       "intersection2 = cls.calc_intersection_point(vector2, bs_pose, cf_pose)",
       "distance = np.linalg.norm(intersection1 - intersection2)", "distance"] := by decide
+/-- the sensor pairs whose ray intersections are measured are the two DIAGONALS of the deck's sensor rectangle: opposite
+corners in x and in y according to `LhDeck4SensorPositions.positions` -/
+theorem gen_diag_pairs_are_diagonals : Gen.C16.diagPairs.length = 2 ∧
+    Gen.C16.diagPairs.all (fun ij =>
+      match Gen.C16.sensorCorners[ij.1]?, Gen.C16.sensorCorners[ij.2]? with
+      | some a, some b => a.1 == -b.1 && a.2 == -b.2
+      | _, _ => false) = true := by decide
 theorem gen_intersection : Gen.C16.deckNormal = [0, 0, 1] ∧
     Gen.C16.intersectionFlow = ["plane_base = cf_pose.translation", "line_base = bs_pose.translation",
       "line_vector = np.dot(bs_pose.rot_matrix, vector.cart)",
